@@ -389,11 +389,6 @@ fn classify(c: &Case) -> &'static str {
             if line_has_class_admitting_slash(&l) {
                 return "bracket-class-admits-slash";
             }
-            let t = l.trim_end();
-            let t = t.strip_prefix('!').unwrap_or(t);
-            if t == "\\/" {
-                return "escaped-slash-only-line-ignores-directories";
-            }
         }
     }
     ""
